@@ -309,11 +309,21 @@ def run(ctx):
     ck.expect(pf is None and sorted(handlers) == ['handle_document', 'handle_no_document'], 'C01-D5', fh.qual,
               'every FTP response reaches handle_document or handle_no_document', 'an FTP response can be handled without storing a status', fh.loc())
     # error branches
+    from ..escape import Escape
+    esc = Escape(repo, ctx.res)
+    base = repo.modules['wpull.processor.base']
+    try:
+        remote = [str(x) for x in repo.fold(base, ast.Name(id='REMOTE_ERRORS', ctx=ast.Load()))]
+    except ValueError:
+        remote = []
+    ck.expect(len(remote) >= 4, 'C01-D5', 'wpull.processor.base:REMOTE_ERRORS', 'REMOTE_ERRORS = (%s)' % ', '.join(r.split(':')[-1] for r in remote),
+              'the tuple of remote error classes is no longer a constant of at least ServerError, ProtocolError, SSLVerificationError, NetworkError')
     for q in (WEB + '._fetch_one', FTPS + '._fetch', WEB + '._process_robots'):
         f = repo.func(q)
-        hs = [h for t in walk_no_nested(f.node) if isinstance(t, ast.Try) for h in t.handlers if h.type is not None and norm_text(h.type) == 'REMOTE_ERRORS']
+        hs = [h for t in walk_no_nested(f.node) if isinstance(t, ast.Try) for h in t.handlers
+              if h.type is not None and remote and all(any(esc.is_sub(r, c) for c in esc.handler_types(f, h)) for r in remote)]
         okh = len(hs) == 1 and any(U.attr_name(c) == 'handle_error' and len(c.args) == 2 and norm_text(c.args[1]) == hs[0].name for c in U.calls(hs[0]))
-        ck.expect(okh, 'C01-D5', q, 'except REMOTE_ERRORS -> handle_error(item_session, error)',
+        ck.expect(okh, 'C01-D5', q, 'a handler covering every class of REMOTE_ERRORS -> handle_error(item_session, error)',
                   'a remote error no longer stores a status for the item', f.loc())
     # catch-alls
     wp = repo.func(WEB + '.process')
